@@ -197,6 +197,12 @@ func (s *scripted) set(r *respSpec) {
 	s.mu.Unlock()
 }
 
+func (s *scripted) endlessBody() bool {
+	s.mu.Lock()
+	defer s.mu.Unlock()
+	return s.cur != nil && s.cur.deliv >= delivThenBlocks
+}
+
 func (s *scripted) count() int {
 	s.mu.Lock()
 	defer s.mu.Unlock()
@@ -659,7 +665,11 @@ func call1(method, path string, cs *clientSet) (out string, keep func() string) 
 		if err != nil {
 			return fail(err)
 		}
-		io.Copy(io.Discard, rc)
+		if cs.hc.endlessBody() {
+			rc.Read(make([]byte, 16)) // the caller of Open owns the body: it does not read an endless one to its end
+		} else {
+			io.Copy(io.Discard, rc)
+		}
 		rc.Close()
 		return "(ok)", nil
 	case "ReadDir":
